@@ -282,6 +282,9 @@ def run_unit(name, tier="quick", config="A", opts=None, keep=None):
         suspect = [f for f in failed if f["function"] in lost_fns]
         failed = [f for f in failed if f["function"] not in lost_fns]
         for (pth, why) in getattr(asm, "lost", []):
+            if why.startswith("assumption lost"):
+                suspect.append(failed_obligation(pth, "other", why[:300]))
+                undec.append(why[:300])
             if why.startswith("not extractable"):
                 loc = next(("%s:%d" % (f_, l_) for (_, _, p_, f_, l_, m_) in asm.fn_ranges if p_ == pth), None)
                 suspect.append(failed_obligation(pth, "other", "function body outside the extraction rules: " + why[:200],
